@@ -287,14 +287,18 @@ def asyncAllowed (cfg : Cfg) (p target : Sid) : Bool :=
 /-! ### the data path of an asynchronous `get_data` (`MosaikRemote.get_data`)
 
 The request does not change the scheduler state (`stepGetDataReq`); what it *answers* is a function of the state:
-for every requested (entity, attribute) of `target` the value of `target`'s cache slice at the requester's
-`last_step` — which, inside the requester's `step`, is still the step *before* the running one (`sim.last_step` is assigned
-after `await sim.step(...)`), −1 before its first step — and, for whatever the slice does not hold (always everything when
+for every requested (entity, attribute) of `target` the value of `target`'s cache slice at the time of the requester's
+running step (`asyncLookupTime`) and, for whatever the slice does not hold (always everything when
 `cache=False`), the reply of `target`'s simulator to a forwarded `get_data`, merged in with `dict.update`. -/
 
-/-- `self.sim.last_step.time` of the requester -/
+/-- the time the cache is read at: `max(last_step.time, current_step.time)` of the requester — the request comes from within
+the running step, whose time `last_step` does not show yet (fix D23; before it the lookup used `last_step.time` alone, the step
+BEFORE the running one) -/
 def asyncLookupTime (s : State) (p : Sid) : Int :=
-  match (s.sims p).last with | some t => (TT.time t : Int) | .none => -1
+  let last : Int := match (s.sims p).last with | some t => (TT.time t : Int) | .none => -1
+  match (s.sims p).cur with
+  | some c => max last (TT.time c : Int)
+  | .none => last
 
 /-- the cache slice `MosaikRemote.get_data` reads for requests of `p` towards `target` -/
 def asyncSlice (cfg : Cfg) (s : State) (p target : Sid) : OutData :=
